@@ -67,7 +67,7 @@ EnumBad(e) ==
           \cup (IF Cardinality({p[1] : p \in P}) # Cardinality(P) THEN {<<-1, {0}, 1, "enumerate:dup", "mappings_fn:duplicate">>} ELSE {})
           \cup (IF ~e.o.mok THEN {<<-1, {0}, ERR, "enumerate:failed", "mappings:" \o e.o.mnote>>} ELSE
                 {<<g[2], {g[1]}, -1, "enumerate:map", "mappings:pair-not-listed">> : g \in {x \in G : <<x[2], x[1]>> \notin P}}
-                \cup {<<p[1], {p[2]}, -1, "enumerate:map", "mappings:glyph-missing">> : p \in {q \in P : \A x \in G : x[1] # q[2]}})
+                \cup {<<-1, {g}, -1, "enumerate:map", "mappings:glyph-missing">> : g \in ({p[2] : p \in P} \ {x[1] : x \in G})})
 
 ConvBad(e) ==
   LET E == ToSet(e.o.enc)  D == ToSet(e.o.dec) IN
